@@ -12,6 +12,7 @@ from idpyoidc.message import SINGLE_REQUIRED_STRING
 from idpyoidc.message import Message
 from idpyoidc.message.oauth2 import ResponseMessage
 from idpyoidc.message.oidc import IdToken
+from idpyoidc.message.oidc import clear_verified_claims
 
 JWT_ARGS = ["iss", "aud", "iat", "nbf", "jti", "exp"]
 
@@ -35,11 +36,11 @@ class AuthenticationRequest(Message):
     }
 
     def verify(self, **kwargs):
+        # what a message holds as verified is what this verification established
+        clear_verified_claims(self)
         super(AuthenticationRequest, self).verify(**kwargs)
         if "request" in self:
             _vc_name = verified_claim_name("request")
-            if _vc_name in self:
-                del self[_vc_name]
 
             # If request is present then none of the other authentication request parameters
             # is allowed apart from those connected to a client authentication method
